@@ -247,7 +247,7 @@ func TestVerifC06Crash(t *testing.T) {
 	r := verifkit.Start(t, "C06", "crash")
 	defer r.Finish("history = 2 producers x 3 batches or 3 producers x 2 batches (1-3 records) on 2 partitions + 1 consumer issuing 6 fetches, buffer thresholds {never, every append, 3 msgs}, index interval {1,100}, cache on/off, one fixed interleaving per history; it is run fault-free to obtain its boundary-operation sequence o_0..o_n-1 (upload_segment, upload_index, update_offsets), then re-run for EVERY k in 0..n-1 in two variants: crash just before o_k, and o_k's effect applied with the broker dead before learning it. evaluations = crash runs + baseline runs; distinct = (history, k, variant); non-trivial = crash run in which the crash point was reached and >= 1 acknowledgement preceded it",
 		"fake S3 atomic puts; surviving metadata store = real InMemoryStore", "the interleaving of each history is fixed by a PRNG over non-fault actions; C01/C05 explore interleavings")
-	nh := r.N(40, 400)
+	nh := r.N(40, 1200)
 	for hi := 0; hi < nh; hi++ {
 		rng := r.Rand(hi)
 		cfg := c06History(rng, hi)
